@@ -412,7 +412,13 @@ struct World<'a> {
   domain: u16,
   /// secure leg: (governance fixture name, /verif/fixtures/c07sec); every participant gets the builtin plugins
   sec: Option<(String, std::path::PathBuf)>,
+  /// set by the last `wait_until` that ran out of time: fraction of the whole machine's CPU time that was idle
+  /// during that wait (from /proc/stat), if it could be measured. A bound that expires on a saturated machine is
+  /// no verdict: the library's threads may simply not have been run.
+  timed_out_with_idle: Option<f64>,
 }
+
+use crate::ctx::{proc_stat, SATURATED_IDLE};
 
 /// The library's public security configuration takes a directory with fixed file names: make one per participant.
 #[cfg(feature = "security")]
@@ -641,6 +647,8 @@ impl<'a> World<'a> {
   fn wait_until(&mut self, limit_s: f64, pred: &dyn Fn(&World) -> bool) -> Option<f64> {
     let mut u = Unstalled::new();
     let t0 = Instant::now();
+    let stat0 = proc_stat();
+    self.timed_out_with_idle = None;
     let mut iters = 0u64;
     let mut pump_s = 0.0f64;
     loop {
@@ -656,6 +664,7 @@ impl<'a> World<'a> {
         return Some(el);
       }
       if u.tick() > limit_s {
+        self.timed_out_with_idle = crate::ctx::idle_share_since(stat0);
         return None;
       }
       std::thread::sleep(StdDuration::from_millis(10));
@@ -776,6 +785,7 @@ pub fn run_scenario_sec(sc: &Sc7, sec: Option<(String, std::path::PathBuf)>, dom
     sent: (0..sc.eps.len()).map(|_| vec![]).collect(),
     domain,
     sec,
+    timed_out_with_idle: None,
   };
   let (_, dropped0) = net::counters();
   macro_rules! abort {
@@ -788,7 +798,33 @@ pub fn run_scenario_sec(sc: &Sc7, sec: Option<(String, std::path::PathBuf)>, dom
   }
   macro_rules! violate {
     ($sig:expr, $detail:expr) => {{
-      acc.violate($sig, $detail, replay.clone());
+      #[allow(unused_mut)]
+      let mut sig: String = $sig;
+      #[allow(unused_mut)]
+      let mut detail: Value = $detail;
+      // a bound that ran out while the machine had (almost) no idle CPU is no verdict
+      if let Some(idle) = w.timed_out_with_idle {
+        if idle < SATURATED_IDLE && (sig.contains("within-bound") || sig.contains("not-delivered") || sig.contains("after-partition-healed") || sig.contains("not-observed")) {
+          acc.count("e2e_waits_timed_out_on_a_saturated_machine_not_judged", 1);
+          acc.inconclusive.push(format!("C07 scenario {}: {} while only {:.0} % of the machine's CPU time was idle during the wait (saturated machine, not judged)", tag["index"], sig, idle * 100.0));
+          net::set_policy_pass();
+          net::set_rx_isolation(false);
+          return out;
+        }
+      }
+      // With security, a participant that was cut off one-sidedly for longer than the lease cannot authenticate its
+      // peers again (open finding, known_findings.json). Whatever pair with one of its endpoints fails to match
+      // LATER in the same scenario (a late joiner on it, a newcomer after a deletion) is the same history and the
+      // same failure, so it is reported under the finding's signature, with what it looked like in the detail.
+      if let (true, Some(p), true) = (w.sec.is_some(), sc.partition_only, out.partitions > 0) {
+        let involves = detail["missing"].as_array().map_or(false, |m| m.iter().any(|x| x["reader_part"].as_u64() == Some(p as u64) || x["writer_part"].as_u64() == Some(p as u64)));
+        if sig.starts_with("C07/match:") && involves {
+          detail["manifested_as"] = json!(sig);
+          detail["one_sided"] = json!(p);
+          sig = "C07/match:pair-not-matched-again-after-partition-healed:one-sided-outage".to_string();
+        }
+      }
+      acc.violate(sig, detail, replay.clone());
       net::set_policy_pass();
       net::set_rx_isolation(false);
       return out;
